@@ -88,10 +88,13 @@ Predict(d) ==
       /\ IF ~wf
            THEN last' = [MkObs(d.op, M, M, c, RaiseOut(TeamsExc(M.kind, teams)), teams, <<>>) EXCEPT !.op = d.op]
            ELSE /\ PredictComputable(M, teams) = TRUE
-                /\ LET v == CASE d.op = "win"  -> PList(PMatV([i \in 1..Len(teams.items) |-> PFloat(WinX(M, teams)[i])]))
-                              [] d.op = "draw" -> PFloat(DrawX(M, teams))
-                              [] d.op = "rank" -> LET p == RankX(M, teams)  r == RankOf(p)
-                                                  IN  PList(PMatV([i \in 1..Len(teams.items) |->
+                /\ LET tv == TeamsVals(teams)          \* materialised once (a tuple), not re-resolved at every use
+                       v == CASE d.op = "win"  -> LET w == Win(M.beta, tv)
+                                                  IN  PList(PMatV([i \in 1..Len(tv) |-> PFloat(w[i])]))
+                              [] d.op = "draw" -> PFloat(Draw(M.beta, tv))
+                              [] d.op = "rank" -> LET p == RankProb(M.beta, tv)
+                                                      r == PMatV(RankOf(p))
+                                                  IN  PList(PMatV([i \in 1..Len(tv) |->
                                                         PTuple(<<PInt(RNorm(r[i])), PFloat(p[i])>>)]))
                    IN  last' = MkObs(d.op, M, M, c, OkOut(v), teams, <<>>)
 
